@@ -1,4 +1,5 @@
 """Further generated tables; each emit_* is added as the property that needs it is built."""
+import os
 import re
 
 
@@ -134,12 +135,20 @@ def emit_sdp(w, src, must):
     w("Definition sdp_media_types : list (list byte) := [%s]." % "; ".join(blist(a.encode()) for a, _ in mt))
     w("Definition sdp_protocols : list (list byte) := [%s]." % "; ".join(blist(a.encode()) for a, _ in pr))
     whole = bool(mt) and bool(pr) and 'tag("audio")' not in media and 'tag("RTP/SAVP")' not in media
+    # the token handed to the match extends to the next white space (not to the end of some character class)
+    def region(a, b):
+        i = media.find(a)
+        j = media.find(b, i + 1) if i >= 0 else -1
+        return media[i:j] if i >= 0 and j > i else ""
+    regs = [region("impl MediaType", "impl fmt::Display for MediaType"), region("impl TransportProtocol", "impl fmt::Display for TransportProtocol")]
+    whole = whole and all("take_while1(not_whitespace)" in r for r in regs)
+    other_class = any(re.search(r"take_while1\((?!not_whitespace\))", r) for r in regs)
     crypto = src("crates/sdp-types/src/attributes/crypto.rs")
     m = must(re.search(r"suite! \{([^}]*)\}", crypto), "SRTP suite list")
     suites = [x.strip() for x in m.group(1).split(",") if x.strip()]
     w("Definition sdp_suites : list (list byte) := [%s]." % "; ".join(blist(a.encode()) for a in suites))
     whole = whole and "map(tag(stringify!($suite))" not in crypto and 'tag("UNENCRYPTED_SRTP")' not in crypto
-    prefix = 'tag("audio")' in media or 'tag("RTP/SAVP")' in media or "map(tag(stringify!($suite))" in crypto or 'tag("UNENCRYPTED_SRTP")' in crypto
+    prefix = other_class or 'tag("audio")' in media or 'tag("RTP/SAVP")' in media or "map(tag(stringify!($suite))" in crypto or 'tag("UNENCRYPTED_SRTP")' in crypto
     flag(w, "sdp_tokens_matched_whole", whole and not prefix, prefix, "whole-token matching of media types / protocols / suites")
     plain_pow = bool(re.search(r"[^_]pow\(", crypto))
     flag(w, "sdp_lifetime_checked_pow", ".checked_pow(" in crypto and not plain_pow, plain_pow, "the 2^n lifetime computation")
@@ -319,7 +328,104 @@ def emit_uaforms(w, src, must):
     w("")
 
 
-SECTIONS = [("codes", emit_codes), ("timers", emit_timers), ("guards", emit_guards), ("stun", emit_stun), ("sdp", emit_sdp), ("sip", emit_sip), ("auth", emit_auth), ("ua", emit_ua), ("tsxforms", emit_tsxforms), ("streamforms", emit_streamforms), ("cancelforms", emit_cancelforms), ("stunforms", emit_stunforms), ("uaforms", emit_uaforms)]
+def translate_repo():
+    import translate
+    return translate.REPO
+
+
+def _fn_body(text, pattern):
+    """the text of the function whose header matches pattern (up to the next fn at the same or a lower indentation)"""
+    m = re.search(pattern, text)
+    if not m:
+        return ""
+    body = text[m.start():]
+    nxt = re.search(r"\n {0,4}(pub(\([a-z]+\))? )?(async )?fn ", body[10:])
+    return body[:nxt.start() + 10] if nxt else body
+
+
+def emit_forms8(w, src, must):
+    """small decision points the larger models take for granted (Model/Forms8.v)"""
+    ep = src("crates/sip-core/src/endpoint.rs")
+    b = _fn_body(ep, r"async fn handle_unwanted_request\b")
+    pos = bool(re.search(r"request\s*\.\s*line\s*\.\s*method", b))
+    neg = bool(re.search(r"tsx_key\s*\.\s*is_invite\(\)", b))
+    w("(* Endpoint::handle_unwanted_request chooses the kind of server transaction for its 481 by the request line (the method the")
+    w("   constructors assert on), not by the transaction key (which follows the CSeq method) *)")
+    flag(w, "unwanted_kind_from_line", pos and not neg, neg, "how handle_unwanted_request chooses the server transaction kind")
+
+    key = src("crates/sip-core/src/transaction/key.rs")
+    b = key
+    pos = bool(re.search(r"headers\.via\[0\]|headers\.via\.first\(\)|\[\s*\w[^\]]*,\s*\.\.\s*\]\s*=\s*headers\.via", b))
+    neg = bool(re.search(r"headers\.via\.last\(\)|\[\s*\.\.\s*,[^\]]*\]\s*=\s*headers\s*\.via|via\.len\(\)\s*-\s*1", b, re.S))
+    w("(* TsxKey::from_headers reads branch and sent-by from the top Via (headers.via[0]) *)")
+    flag(w, "key_from_top_via", pos and not neg, neg, "which Via TsxKey::from_headers reads")
+
+    si = src("crates/sip-core/src/transaction/server_inv.rs")
+    b = _fn_body(si, r"async fn respond_provisional\b")
+    sends = len(re.findall(r"send_outgoing_response\(", b))
+    neg = bool(re.search(r"try_recv\(|\.receive\(\)|receiver\b|\bloop\b|\bwhile\b", b))
+    w("(* ServerInvTsx::respond_provisional is one hand-over to the transport and leaves the transaction's queue alone *)")
+    flag(w, "provisional_ignores_queue", sends == 1 and not neg, neg or sends > 1, "what ServerInvTsx::respond_provisional does besides one send")
+
+    sv = src("crates/sip-core/src/transaction/server.rs")
+    both = sv + si
+    neg = bool(re.search(r"\.parts\s*\.\s*destination\s*=[^=]|\.parts\s*\.\s*transport\s*=[^=]", both))
+    pos = bool(re.search(r"send_(outgoing_)?response\(", sv)) and not neg
+    w("(* the completed server transactions re-send the stored response as it is (no field of it is assigned in the retransmission loops) *)")
+    flag(w, "resend_keeps_destination", pos, neg, "whether the server transactions touch the stored response before re-sending it")
+
+    ly = src("crates/sip-ua/src/dialog/layer.rs")
+    if os.path.exists(os.path.join(translate_repo(), "crates/sip-ua/src/dialog/entry.rs")):
+        ly += src("crates/sip-ua/src/dialog/entry.rs")
+    pos = bool(re.search(r"next_peer_cseq\s*=\s*Some\([^;]*\blast_cseq\b", ly))
+    neg = bool(re.search(r"next_peer_cseq\s*=\s*Some\([^;]*\brequest_cseq\b", ly))
+    w("(* DialogLayer::receive: after releasing parked requests the next expected CSeq is the last released number + 1 *)")
+    flag(w, "next_cseq_from_last_released", pos and not neg, neg, "how DialogLayer::receive computes the next expected CSeq after a release")
+    seq_at = re.search(r"next_peer_cseq", ly)
+    early = re.search(r"usages\s*\.\s*(is_empty\(\)|len\(\)\s*==\s*0)[^{;]*\{\s*return\b", ly)
+    neg = bool(early)
+    w("(* DialogLayer::receive sequences a request of a known dialog whether or not a usage is registered at that moment *)")
+    flag(w, "sequenced_without_usages", bool(seq_at) and not early, neg, "whether DialogLayer::receive looks at the usages before it sequences a request")
+
+    inv = src("crates/sip-ua/src/invite/mod.rs")
+    i = inv.find("Method::ACK =>")
+    arm = inv[i:inv.find("Method::BYE =>", i)] if i >= 0 else ""
+    takes = bool(re.search(r"awaited_ack\w*\s*\.\s*take\(\)", arm))
+    back = bool(re.search(r"\*\s*awaited_ack\w*\s*=\s*Some\(", arm))
+    peeks = bool(re.search(r"awaited_ack\w*\s*\.\s*as_ref\(\)|take_if\(", arm))
+    w("(* InviteUsage::receive (ACK arm) puts the awaited-ACK entry back when the ACK's CSeq is not the awaited one *)")
+    flag(w, "ack_mismatch_puts_back", (takes and back) or peeks, takes and not back, "what the ACK arm of InviteUsage::receive does with an entry that does not match")
+
+    ci = src("crates/sip-core/src/transaction/client_inv.rs")
+    i = ci.find("CodeKind::Success =>")
+    j = ci.find("State::Accepted", i)
+    arm = ci[i:j] if i >= 0 and j > i else ""
+    neg = bool(re.search(r"reliable\(\)|Duration::ZERO|from_secs\(0\)", arm))
+    pos = bool(re.search(r"self\.timeout\s*=\s*[^;]+;", arm)) and not re.search(r"\bif\b|\bmatch\b", arm)
+    w("(* ClientInvTsx::handle_msg: the Accepted state lasts 64*T1 on every transport (RFC 6026 timer M) *)")
+    flag(w, "timer_m_any_transport", pos and not neg, neg, "the Accepted-state timeout of ClientInvTsx")
+
+    tm = src("crates/sip-core/src/transport/mod.rs")
+    b = _fn_body(tm, r"async fn resolve_host_port\b") or _fn_body(tm, r"async fn resolve_uri\b")
+    neg = bool(re.search(r"to_canonical\(\)|to_ipv4_mapped\(\)|to_ipv4\(\)|to_ipv6_mapped\(\)", b))
+    pos = bool(re.search(r"Host::IP6\(ip\)\s*=>[^,\n]*\(\*ip", b)) and bool(re.search(r"Host::IP4\(ip\)\s*=>[^,\n]*\(\*ip", b))
+    w("(* Transports::resolve_host_port uses an IP literal as it is written *)")
+    flag(w, "ip_literal_verbatim", pos and not neg, neg, "what Transports::resolve_host_port does with an IP literal")
+
+    st = src("crates/stun-types/src/lib.rs")
+    b = _fn_body(st, r"pub fn is_stun_message\b")
+    m = must(re.search(r"if\s+i\.len\(\)\s*(<=|<)\s*(\w+)\s*\{\s*return\s+IsStunMessageInfo::TooShort", b), "the length test of is_stun_message")
+    n = m.group(2)
+    if not n.isdigit():
+        allst = "".join(src(os.path.join("crates/stun-types/src", f)) for f in sorted(os.listdir(os.path.join(translate_repo(), "crates/stun-types/src"))) if f.endswith(".rs"))
+        n = must(re.search(r"const\s+%s\s*:\s*\w+\s*=\s*(\d+)\s*;" % re.escape(n), allst), "the constant in the length test of is_stun_message").group(1)
+    w("(* stun_types::is_stun_message: a datagram of exactly this many bytes (the header) is long enough *)")
+    w("Definition stun_header_len : N := %s." % n)
+    w("Definition stun_header_len_suffices : bool := %s." % ("true" if m.group(1) == "<" else "false"))
+    w("")
+
+
+SECTIONS = [("codes", emit_codes), ("timers", emit_timers), ("guards", emit_guards), ("stun", emit_stun), ("sdp", emit_sdp), ("sip", emit_sip), ("auth", emit_auth), ("ua", emit_ua), ("tsxforms", emit_tsxforms), ("streamforms", emit_streamforms), ("cancelforms", emit_cancelforms), ("stunforms", emit_stunforms), ("uaforms", emit_uaforms), ("forms8", emit_forms8)]
 
 # which properties' models read which section of Gen/Tables.v
 SECTION_USERS = {
@@ -336,5 +442,6 @@ SECTION_USERS = {
     "streamforms": ["C15"],
     "cancelforms": ["C12"],
     "stunforms": ["C20", "C16"],
-    "uaforms": ["C12", "C06"],
+    "uaforms": ["C12", "C06", "C07"],
+    "forms8": ["C02", "C04", "C06", "C09", "C10", "C12", "C13", "C14", "C16", "C20"],
 }
